@@ -332,7 +332,7 @@ h19d!(c19_col_w1311, [1, 3, 1, 1], 4, 6, 0, 8);
 h19d!(c19_col_w1141, [1, 1, 4, 1], 4, 7, 3, 9);
 h19d!(c19_col_w11111, [1, 1, 1, 1, 1], 5, 5, 0, 7);
 
-// ---- H19e: the lexer-level queries built on the cache ------------------------------------------
+// ---- H19e / H19f: the lexer-level queries built on the cache -----------------------------------
 
 use lrlex::{DefaultLexerTypes, LRNonStreamingLexer};
 use lrpar::NonStreamingLexer;
@@ -340,8 +340,8 @@ use std::str::FromStr;
 
 macro_rules! h19e {
     ($name:ident, $w:expr, $n:expr, $b:expr, $unwind:expr) => {
-        /// `NonStreamingLexer::{span_lines_str, line_col}` of lrlex's lexer object, for every span of
-        /// character boundaries of a symbolic text.
+        /// `NonStreamingLexer::span_lines_str` of lrlex's lexer object, for every span of character
+        /// boundaries of a symbolic text.
         #[kani::proof]
         #[kani::unwind($unwind)]
         pub fn $name() {
@@ -355,26 +355,15 @@ macro_rules! h19e {
             let ei: usize = kani::any();
             kani::assume(si <= ei && ei <= N);
             let (st, en) = (bounds[si], bounds[ei]);
-            // reference scans
             let mut ls = 0; // start of the line containing st
-            let mut line_s = 1;
-            let mut ls_e = 0; // start of the line containing en
-            let mut line_e = 1;
             let mut i = 0;
             while i < B {
-                if buf[i] == b'\n' {
-                    if i < st {
-                        ls = i + 1;
-                        line_s += 1;
-                    }
-                    if i < en {
-                        ls_e = i + 1;
-                        line_e += 1;
-                    }
+                if buf[i] == b'\n' && i < st {
+                    ls = i + 1;
                 }
                 i += 1;
             }
-            // end (excluding the newline) of the line containing position p
+            // end (excluding the newline) of the line containing position en / byte en - 1
             let mut end_a = B;
             let mut end_b = B;
             let mut i = B;
@@ -396,9 +385,48 @@ macro_rules! h19e {
             let off = unsafe { got.as_ptr().offset_from(s.as_ptr()) } as usize;
             assert!(off == ls, "lines of a span start at the start of its first line");
             assert!(off + got.len() == end_a || off + got.len() == end_b, "lines of a span end at the end of its last line");
-            let ((l1, c1), (l2, c2)) = lexer.line_col(cfgrammar::Span::new(st, en));
-            assert!(l1 == line_s && l2 == line_e, "line numbers of both ends of the span");
-            // columns: 1 + characters since the line began; at the LF of a CR LF pair either half's column
+            kani::cover!(got.len() > en - st, "lines longer than the span");
+            kani::cover!(en == B && st < en, "span ending at end of text");
+            std::mem::forget(lexer);
+        }
+    };
+}
+
+macro_rules! h19f {
+    ($name:ident, $w:expr, $n:expr, $b:expr, $unwind:expr) => {
+        /// `NonStreamingLexer::line_col` of lrlex's lexer object: line and column of both ends of every
+        /// span, and independence of a position's line/column from the span it is an end of.
+        #[kani::proof]
+        #[kani::unwind($unwind)]
+        pub fn $name() {
+            const N: usize = $n;
+            const B: usize = $b;
+            let (buf, bounds) = any_text::<N, B>($w);
+            let s = unsafe { std::str::from_utf8_unchecked(&buf[..]) };
+            let cache = NewlineCache::from_str(s).unwrap();
+            let lexer: LRNonStreamingLexer<DefaultLexerTypes<u8>> = LRNonStreamingLexer::new(s, Vec::new(), cache);
+            let si: usize = kani::any();
+            let ei: usize = kani::any();
+            kani::assume(si <= ei && ei <= N);
+            let (st, en) = (bounds[si], bounds[ei]);
+            let mut ls = 0;
+            let mut line_s = 1;
+            let mut ls_e = 0;
+            let mut line_e = 1;
+            let mut i = 0;
+            while i < B {
+                if buf[i] == b'\n' {
+                    if i < st {
+                        ls = i + 1;
+                        line_s += 1;
+                    }
+                    if i < en {
+                        ls_e = i + 1;
+                        line_e += 1;
+                    }
+                }
+                i += 1;
+            }
             let mut ch_s = 0;
             let mut ch_e = 0;
             let mut i = 0;
@@ -415,13 +443,16 @@ macro_rules! h19e {
             }
             let lf_s = st < B && buf[st] == b'\n' && st > ls && buf[st - 1] == b'\r';
             let lf_e = en < B && buf[en] == b'\n' && en > ls_e && buf[en - 1] == b'\r';
+            let ((l1, c1), (l2, c2)) = lexer.line_col(cfgrammar::Span::new(st, en));
+            assert!(l1 == line_s && l2 == line_e, "line numbers of both ends of the span");
+            // columns: 1 + characters since the line began; at the LF of a CR LF pair either half's column
             assert!(c1 == ch_s + 1 || (lf_s && c1 == ch_s), "column of the span's start");
             assert!(c2 == ch_e + 1 || (lf_e && c2 == ch_e), "column of the span's end");
             // a position's line and column do not depend on which span it is an end of
             let (p_end, _) = lexer.line_col(cfgrammar::Span::new(en, en));
             assert!(p_end == (l2, c2), "the same offset has the same line and column as a span end and as a span start");
             kani::cover!(line_e > line_s, "span over more than one line");
-            kani::cover!(en == B && st < en, "span ending at end of text");
+            kani::cover!(lf_e, "opt: span ending at the LF of a CR LF pair");
             std::mem::forget(lexer);
         }
     };
@@ -429,3 +460,5 @@ macro_rules! h19e {
 h19e!(c19_lex_w11, [1, 1], 2, 2, 4);
 h19e!(c19_lex_w111, [1, 1, 1], 3, 3, 5);
 h19e!(c19_lex_w121, [1, 2, 1], 3, 4, 6);
+h19f!(c19_lexcol_w11, [1, 1], 2, 2, 4);
+h19f!(c19_lexcol_w111, [1, 1, 1], 3, 3, 5);
